@@ -157,7 +157,8 @@ def handleFields (j : Json) : Except String Verdict := do
   if implCls arrow != "ok" then
     tags := tags ++ ["arrow-na"]
   else
-    for key in ["arrow", "arrow_refs", "arrow2"] do
+    -- (`arrow_plain`, `*_owned`: API coverage — the borrowed conversion into `Vec<arrow Field>` and the owned ones)
+    for key in ["arrow", "arrow_refs", "arrow2", "arrow_plain", "arrow_owned", "arrow_refs_owned", "arrow2_owned"] do
       match j.getObjVal? key with
       | .error _ => pure ()
       | .ok o =>
@@ -166,7 +167,21 @@ def handleFields (j : Json) : Except String Verdict := do
         if cls == "ok" then
           if got != fs then specFail := specFail ++ [(s!"C09/{key}/altered/{firstCtor fs}", s!"{key}: fields changed by the conversion and back")]
         else if key == "arrow2" then tags := tags ++ ["arrow2-na"]
+        else if key == "arrow2_owned" then
+          -- the owned conversion is the borrowed one
+          if implCls ((j.getObjVal? "arrow2").toOption.getD Json.null) == "ok" then
+            problems := problems ++ [(s!"C09/{key}/{cls}", s!"{key}: fails where the borrowed conversion succeeds")]
         else problems := problems ++ [(s!"C09/{key}/{cls}", s!"{key}: conversion back failed")]
+    -- API coverage: Clone / PartialEq / Default of SerdeArrowSchema
+    match j.getObjVal? "value_traits" with
+    | .error _ => pure ()
+    | .ok o =>
+      outcomes := o :: outcomes
+      let v := (o.getObjVal? "ok").toOption.getD Json.null
+      let b (k : String) : Bool := (v.getObjValAs? Bool k).toOption.getD false
+      let dflt := ((v.getObjVal? "default").toOption.bind fun d => (fieldsOfJson d).toOption)
+      if !(b "clone_eq") || dflt != some [] || (b "ne_default") != !fs.isEmpty then
+        specFail := specFail ++ [("C09/value-traits", s!"Clone / PartialEq / Default of SerdeArrowSchema: {o.compress}")]
     -- 3. the JSON form written by the crate
     let json ← getObj j "json"
     outcomes := json :: outcomes
@@ -183,7 +198,8 @@ def handleFields (j : Json) : Except String Verdict := do
       let backObj ← getObj j "back_obj"
       let (bcls, bfs) ← implFields backObj
       for (key, mdl) in [("back_obj", parseSchema jv), ("back_list", parseSchema (toJVal (ij.getObjValD "fields"))),
-                          ("back_schema", parseSchema jv), ("back_arrow", parseSchema jv), ("text_rt", parseSchema jv)] do
+                          ("back_schema", parseSchema jv), ("back_arrow", parseSchema jv), ("back_arrow_plain", parseSchema jv),
+                          ("text_rt", parseSchema jv)] do
         let o ← getObj j key
         outcomes := o :: outcomes
         if let some w ← diffOutcome key mdl o then problems := problems ++ [(s!"C09/{key}/{firstCtor fs}", w)]
@@ -196,7 +212,7 @@ def handleFields (j : Json) : Except String Verdict := do
       tags := tags ++ [s!"back-{bcls}"]
       if inDomain then
         -- round trip is the identity on every entry point
-        for key in ["back_obj", "back_list", "back_schema", "back_arrow", "text_rt"] do
+        for key in ["back_obj", "back_list", "back_schema", "back_arrow", "back_arrow_plain", "text_rt"] do
           let (c, got) ← implFields (← getObj j key)
           if c != "ok" || got != fs then
             let cause := if fs.any (tzNeedsEscape esc) then "Timestamp/tz-escape" else s!"{firstCtor fs}"
@@ -218,9 +234,48 @@ def handleFields (j : Json) : Except String Verdict := do
   | [], (sig, why) :: _ => return { agree := false, spec := [("C09", "pass"), ("C16", c16v)], sig, tags, why }
   | [], [] => return { agree := true, spec := [("C09", if inDomain || !valid then "pass" else "na"), ("C16", c16v)], tags }
 
+/-- API coverage: the public `Strategy` value on its own.  Model: `Strategy.parse` / `Strategy.toString` / `STRATEGY_KEY`
+(the definitions `parseSchema` / `printSchema` use).  Specification (C09, "a schema keeps … strategy"): the three readers
+accept exactly the names the writers produce, every written form of an accepted strategy is that name, and the metadata
+entry it converts to is `(STRATEGY_KEY, name)` — so a strategy written by any form is read back as itself. -/
+def handleStrategy (j : Json) : Except String Verdict := do
+  let s ← getStr j "s"
+  let model := Strategy.parse s
+  let readers ← ["parse", "try_from", "de"].mapM fun k => do pure (k, ← getObj j k)
+  let key := (getStr j "key").toOption.getD ""
+  let mut problems : List (String × String) := []
+  let mut specFail : List (String × String) := []
+  let known := ["InconsistentTypes", "TupleAsStruct", "MapAsStruct", "UnknownVariant"].contains s
+  for (k, o) in readers do
+    let cls := implCls o
+    if cls != model.cls then problems := problems ++ [(s!"C09/strategy/{k}/model={model.cls}/impl={cls}", s!"{k} {repr s}: model {model.cls}, implementation {cls}")]
+    if cls == "ok" then
+      if !known then specFail := specFail ++ [(s!"C09/strategy/{k}/accepted-unknown", s!"{k} accepted {repr s}, which no writer produces")]
+      else if (o.getObjValAs? String "ok").toOption != some s then
+        specFail := specFail ++ [(s!"C09/strategy/{k}/altered", s!"{k} {repr s}: read as {o.compress}")]
+    else if known then specFail := specFail ++ [(s!"C09/strategy/{k}/rejected", s!"{k} rejected the strategy name {repr s}: {o.compress}")]
+  if key != STRATEGY_KEY then specFail := specFail ++ [("C09/strategy/key", s!"STRATEGY_KEY is {repr key}")]
+  match j.getObjVal? "forms" with
+  | .error _ => if known then specFail := specFail ++ [("C09/strategy/forms-missing", "no written forms for a known strategy")]
+  | .ok o =>
+    let v := (o.getObjVal? "ok").toOption.getD Json.null
+    let name := match model with | .ok st => st.toString | .error _ => s
+    let entry := Json.arr #[Json.arr #[Json.str STRATEGY_KEY, Json.str name]]
+    let good := (v.getObjVal? "display").toOption == some (Json.str name) && (v.getObjVal? "into_string").toOption == some (Json.str name)
+      && (v.getObjVal? "ser").toOption == some (Json.str name) && (v.getObjVal? "hash_map").toOption == some entry
+      && (v.getObjVal? "btree_map").toOption == some entry && (v.getObjVal? "clone_eq").toOption == some (Json.bool true)
+    if !good then specFail := specFail ++ [("C09/strategy/forms", s!"written forms of {repr s}: {o.compress}")]
+  let c16v := c16 (readers.map (·.2) ++ ((j.getObjVal? "forms").toOption.toList))
+  let tags := ["strategy", if known then "strategy-known" else "strategy-unknown"]
+  match specFail, problems with
+  | (sig, why) :: _, _ => return { agree := problems.isEmpty, spec := [("C09", "fail"), ("C16", c16v)], sig, tags, why }
+  | [], (sig, why) :: _ => return { agree := false, spec := [("C09", "pass"), ("C16", c16v)], sig, tags, why }
+  | [], [] => return { agree := true, spec := [("C09", "pass"), ("C16", c16v)], tags }
+
 def handle (j : Json) : Except String Verdict := do
   match (← getStr j "kind") with
   | "spell" => handleSpell j
+  | "strategy" => handleStrategy j
   | "json" => handleJson j
   | "fields" => handleFields j
   | k => throw s!"unknown kind {k}"
